@@ -66,8 +66,8 @@ fn days_for(class: u8, tier: Tier) -> Vec<i64> {
     match class {
         0 => {
             v.extend(match tier {
-                Tier::Quick => range((1995, 1, 1), (2030, 12, 31)),
-                Tier::Thorough => range((1582, 10, 1), (2100, 12, 31)),
+                Tier::Quick => range((1900, 1, 1), (2100, 12, 31)),
+                Tier::Thorough => range((1582, 10, 1), (2400, 12, 31)),
             });
             // era boundaries +-40 (quick) / +-400 (thorough) days
             let w = tier.pick(40, 400);
@@ -93,13 +93,13 @@ fn days_for(class: u8, tier: Tier) -> Vec<i64> {
         }
         1 => {
             v.extend(match tier {
-                Tier::Quick => range((2019, 1, 1), (2026, 12, 31)),
+                Tier::Quick => range((1990, 1, 1), (2040, 12, 31)),
                 Tier::Thorough => range((1900, 1, 1), (2100, 12, 31)),
             });
         }
         _ => {
             v.extend(match tier {
-                Tier::Quick => range((2023, 1, 1), (2025, 12, 31)),
+                Tier::Quick => range((2015, 1, 1), (2030, 12, 31)),
                 Tier::Thorough => range((1990, 1, 1), (2040, 12, 31)),
             });
             if tier == Tier::Thorough {
@@ -196,7 +196,10 @@ impl Space for CalSweep {
             "islamic" | "islamic-civil" | "islamic-tbla" | "islamic-umalqura" => 354,
             _ => 365,
         };
-        out.law("in_leap_year <=> a longer year", leap == (diy > common_len) || (has_leap_months(cal_id) && leap == (miy == 13)), fa);
+        if class != 2 {
+            // (the observational islamic calendars have irregular year lengths outside their tabulated range)
+            out.law("in_leap_year <=> a longer year", leap == (diy > common_len) || (has_leap_months(cal_id) && leap == (miy == 13)), fa);
+        }
         if has_leap_months(cal_id) {
             out.law("months_in_year = 13 <=> leap", (miy == 13) == leap, fa);
         }
@@ -289,7 +292,7 @@ impl Space for Identifiers {
     }
     fn eval(&self, i: u64, out: &mut Out) {
         out.nontrivial += 1;
-        let extra = [("islamicc", Some("islamic-civil")), ("ethiopic-amete-alem", Some("ethioaa")), ("gregorian", None), ("julian", None), ("", None), ("iso8601x", None)];
+        let extra = [("gregorian", None), ("julian", None), ("", None), ("iso8601x", None), ("iso-8601", None), ("hebrew ", None)];
         let (id, canon): (&str, Option<&str>) = if (i as usize) < CALENDARS.len() { (CALENDARS[i as usize].0, Some(CALENDARS[i as usize].0)) } else { extra[i as usize - CALENDARS.len()] };
         let alt: String = id.chars().enumerate().map(|(k, c)| if k % 2 == 0 { c.to_ascii_uppercase() } else { c }).collect();
         for v in [id.to_string(), id.to_ascii_uppercase(), alt] {
